@@ -24,7 +24,7 @@
 // and an added or removed critical section are all reported.
 //
 // header: {"min":n,"max":n (99 = unlimited),"threads":["P","1","2"]}
-// projection: {"closed","nextFree","pos","pubAlive","q","regs":[{"awt","kicked","pos","used"}],
+// projection: {"closed","nextFree","pos","pubAlive","q","regs":[{"awt","kicked","pos","used"[,"woken"]}],
 //              "pend":{thread: idle|lock|unlocked|wait|woken|done},
 //              "subs":{"<id>":{"eos","hnd","mode","recv","res"}}}
 #include <cocls/publisher.h>
@@ -52,6 +52,12 @@ struct QProbe : Queue {
     static std::size_t &pos(Queue &q) { return q.*(&QProbe::_pos); }
     static bool &closed(Queue &q) { return q.*(&QProbe::_closed); }
 };
+
+// the `_woken` bit of a registration (repair of the copy-of-woken defect) is projected when the tree under test has it
+template <typename R>
+static void set_woken(J &jr, const R &r) {
+    if constexpr (requires { r._woken; }) jr.set("woken", r._woken);
+}
 
 struct SubProbe : SubT {
     SubProbe(Pub &p, cocls::subscribtion_type t) : SubT(p, t) {}
@@ -221,6 +227,7 @@ static J core(World &w) {
         jr.set("pos", r._pos);
         jr.set("used", r._used);
         jr.set("kicked", r._kicked);
+        set_woken(jr, r);
         jr.set("awt", (long long) reinterpret_cast<std::uintptr_t>(r._awt));
         jr.set("sub", (long long) reinterpret_cast<std::uintptr_t>(r._sub));
         rl.push(jr);
@@ -247,6 +254,7 @@ static J project(World &w) {
         jr.set("pos", r._pos);
         jr.set("used", r._used);
         jr.set("kicked", r._kicked);
+        set_woken(jr, r);
         int owner = 0;
         if (!r._used && r._awt) {
             auto it = w.slot_last_left.find(i);
